@@ -115,6 +115,17 @@ def k1(ctx, kr):
         if st['enc'] == 'utf8-bom': return ok(Str('\ufeffT'))
         return err(Agg('FromUtf8Error', [a[0]]))
     def st_into_bytes(M, fr, callee, a): return a[0].f[0]
+    def st_for_bom(M, fr, callee, a):
+        # Encoding::for_bom(buffer): Some((encoding, length of the mark)) iff the buffer starts with a UTF-8 / UTF-16LE / UTF-16BE byte-order mark
+        fb = file_bytes(M, a[0])
+        if fb is None or fb.f[0] == 'part': raise Unsupported('Encoding::for_bom on a part of the file')
+        st['used'].append(('for_bom', 'sniff'))
+        e = {'utf8-bom': ('UTF_8', 3), 'utf16le-bom': ('UTF_16LE', 2), 'utf16be-bom': ('UTF_16BE', 2)}.get(st['enc'])
+        if st['enc'] == 'binary':
+            if not M.branch(M.fresh_bool('binary_starts_with_bom')): return none()
+            e = ('UTF_8', 3)
+        if e is None: return none()
+        return some(Agg('()', [Ref(Cell(Agg('static:encoding_rs::' + e[0], []))), e[1]]))
     # byte-level questions about the abstract file, by what the stored form of a text (non-ASCII characters, no NUL character) looks like:
     # a zero byte occurs exactly in the UTF-16 forms; the file starts with the bytes of its byte-order mark (if it has one) and otherwise with text
     BOMS = {'utf8-bom': [0xEF, 0xBB, 0xBF], 'utf16le-bom': [0xFF, 0xFE], 'utf16be-bom': [0xFE, 0xFF]}
@@ -156,6 +167,7 @@ def k1(ctx, kr):
                           r'^<std::vec::Vec<u8> as std::ops::Index<std::ops::Range\w*<usize>>>::index$|^<\[u8\] as std::ops::Index<std::ops::Range\w*<usize>>>::index$|^core::slice::<impl \[.*\]>::(get|first_chunk|split_first_chunk)$|^core::slice::index::<impl std::ops::Index<.*> for \[.*\]>::index$': st_slice,
                           r'^<std::vec::Vec<u8> as std::ops::Deref>::deref$|^std::vec::Vec::<.*>::as_slice$|^<std::vec::Vec<.*> as std::convert::AsRef<\[.*\]>>::as_ref$': st_same, r'^std::string::String::from_utf8$|^std::str::from_utf8$|^core::str::from_utf8$': st_from_utf8,
                           r'^core::slice::<impl \[u8\]>::contains$': st_contains, r'^core::slice::<impl \[u8\]>::starts_with$': st_starts_with,
+                          r'^encoding_rs::Encoding::for_bom$': st_for_bom,
                           r'^std::string::FromUtf8Error::into_bytes$': st_into_bytes, r'^encoding_rs::mem::decode_latin1$': st_latin1, r"^std::borrow::Cow::<'_, str>::into_owned$|^std::borrow::Cow::into_owned$|^<std::borrow::Cow<'_, str> as std::string::ToString>::to_string$": lambda M_, fr, c, a: (M_.deref(a[0]) if isinstance(a[0], Ref) else a[0]), r'^std::string::String::from_utf8_lossy$': lambda M_, fr, c, a: (_ for _ in ()).throw(Unsupported('from_utf8_lossy over an abstract file')), r'^encoding_rs::Encoding::decode': st_decode, r'^encoding_rs::Encoding::name$': lambda M_, fr, c, a: Ref(Cell(Str('enc'))),
                           r'^source::diagnostic$': lambda M_, fr, c, a: Agg('Diagnostic', [Str('problem:%d' % M_.deref(a[0]).disc if isinstance(M_.deref(a[0]), EnumV) else 'problem')]),
                           r'^<std::io::Error as std::string::ToString>::to_string$': lambda M_, fr, c, a: Str('io error')})
